@@ -76,6 +76,13 @@ def build_module(mod):
     return p.returncode == 0, (p.stdout + p.stderr)
 
 
+def recheck(mod):
+    """the toolchain's independent re-checker over the compiled module (replays every declaration through the kernel)"""
+    with locked("lake"):
+        p = run(["lake", "env", "leanchecker", mod], cwd=LEAN)
+    return p.returncode == 0, (p.stdout + p.stderr)[-1500:]
+
+
 def print_axioms(module, theorems):
     """Returns {theorem: set(axioms)} or {theorem: None} if it does not exist/check."""
     os.makedirs(CACHE, exist_ok=True)
